@@ -2,6 +2,7 @@ import Flowdyn.Exec.Lim
 import Flowdyn.Exec.Int
 import Flowdyn.Exec.Kern
 import Flowdyn.Exec.Fvm
+import Flowdyn.Exec.Drv
 
 namespace Flowdyn.Exec
 
@@ -13,6 +14,8 @@ def dispatch (line : String) : String :=
   | "mesh1d" :: args => (handleMesh args).getD "bad-op"
   | "stage1d" :: args => (handleStage args).getD "bad-op"
   | "rhs1d" :: args => (handleRhs args).getD "bad-op"
+  | "istep" :: args => (handleIStep args).getD "bad-op"
+  | "drv" :: args => (handleDrv args).getD "bad-op"
   | _ => "bad-op"
 
 partial def loop (h : IO.FS.Stream) (out : IO.FS.Stream) : IO Unit := do
